@@ -182,8 +182,16 @@ class Check(PropertyCheck):
         return fails
 
     def search(self, boost=1):
-        fails = self.oracle(self.inputs(self.scale(3000, 50000) * boost))
-        fails += self.size_sweep()
+        # in slices: a hanging conversion costs the silence limit of the runner, so the search stops at the first slice
+        # that has failures instead of paying for every hanging input of a tree that hangs often
+        fails = []
+        todo = self.inputs(self.scale(3000, 50000) * boost)
+        for i in range(0, len(todo), 1500):
+            fails += self.oracle(todo[i:i + 1500])
+            if fails:
+                break
+        if not any("time budget" in f.what for f in fails):
+            fails += self.size_sweep()
         return fails
 
     def oracle_on_texts(self, texts):
